@@ -252,8 +252,18 @@ def _gen_body(rng, depth=0):
             body.append(["call", rng.choice(METHODS[:2]), docgen.document(rng, 2), _gen_fault(rng) if rng.random() < 0.3 else None])
         elif r < 0.75 and depth < 2:
             body.append(["reset", _gen_body(rng, depth + 1)])
-        elif r < 0.9:
+        elif r < 0.86:
             body.append(["raise", rng.choice(EXC_NAMES)])
+        elif r < 0.91:
+            # a plugin is tried inside the block: it REGISTERS a rule (which is born enabled); on exit the rules in force
+            # on entry must be back, i.e. the new rule is registered but off
+            which = rng.choice(RULERS)
+            refs = {"core": ["normalize", "block", "inline", "text_join"],
+                    "block": ["code", "fence", "blockquote", "hr", "list", "reference", "heading", "lheading", "paragraph"],
+                    "inline": ["text", "newline", "escape", "backticks", "emphasis", "link", "image", "entity"],
+                    "inline2": ["balance_pairs", "emphasis", "fragments_join"]}[which]
+            body.append(["plugin", which, rng.choice(["push", "before", "after"]), rng.choice(refs),
+                         f"tmp{rng.randrange(10 ** 6)}"])
         else:
             which = rng.choice(RULERS)
             names = rng.sample(RULE_POOLS[which], rng.randint(1, 2))
@@ -358,6 +368,7 @@ class _Run:
             self.md.render("# w\n\n*a* [b](/c) `d`\n\n> - e\n\n```x\nf\n```\n")
             self.twin.render("# w\n\n*a* [b](/c) `d`\n\n> - e\n\n```x\nf\n```\n")
         self.base = snapshot(self.md)
+        self.registered: list = []     # rules registered inside reset_rules blocks (they stay registered, switched off)
 
     def same_as_twin(self, method, doc, label, site):
         """A fault-free call on the instance must give what the never-faulted twin gives."""
@@ -467,6 +478,16 @@ class _Run:
                 e = self.call(f"{k}.{j}", op[1], op[2], op[3], in_reset=True)
                 if e is not None:
                     raise e
+            elif kind == "plugin":
+                _, which, pk, ref, name = op
+                r = _ruler(self.md, which)
+                if name not in r.get_all_rules():
+                    fn = _wrap_rule(_noop_rule(which), which, name, self.plan)
+                    opts = {"alt": list(BLOCK_ALT[:2])} if which == "block" else None
+                    args = ((name, fn) if pk == "push" else (ref, name, fn)) + ((opts,) if opts else ())
+                    getattr(r, pk)(*args)
+                    self.registered.append((which, name))
+                    res.count("rule_registered_inside_reset_rules")
             elif kind == "raise":
                 self.body_exc = make_exc(op[1], f"raised by reset_rules body {k}.{j}", j + len(ops))
                 raise self.body_exc
@@ -495,7 +516,18 @@ class _Run:
             res.nontrivial = True
         else:
             res.count("reset_rules_normal_exit")
-        d = _diff_snap(entry, snapshot(self.md))
+        now = snapshot(self.md)
+        if now["all"] != entry["all"]:
+            # registration is not undone by reset_rules (it resets what is ENABLED): the rules registered inside the
+            # block must be the only additions, and they must be off
+            added = {w: [x for x in now["all"][w] if x not in entry["all"][w]] for w in now["all"]}
+            mine = {w: [n for (ww, n) in self.registered if ww == w] for w in now["all"]}
+            if all(set(added[w]) <= set(mine[w]) and [x for x in now["all"][w] if x not in added[w]] == entry["all"][w]
+                   for w in now["all"]):
+                entry = {**entry, "all": now["all"]}
+                if depth == 0:
+                    self.base = {**self.base, "all": now["all"]}
+        d = _diff_snap(entry, now)
         if d:
             path = f"exception exit ({type(escaped).__name__})" if escaped else "normal exit"
             res.fail("RESET_NOT_RESTORED", f"op {k}: reset_rules block left by {path} did not restore the rules in "
@@ -591,7 +623,7 @@ class C14(Engine):
     expected_probes = ["crash_in_silent_mode", "crash_inside_blockquote_or_list", "crash_inside_link_label",
                        "crash_inside_image_description", "crash_in_render_rule", "crash_in_highlight",
                        "reset_rules_exception_exit", "reset_rules_nested", "library_error_inside_reset_rules",
-                       "strict_ruler_call_failed_midway_inside_reset_rules"]
+                       "strict_ruler_call_failed_midway_inside_reset_rules", "rule_registered_inside_reset_rules"]
 
     def budget(self, tier):
         if tier == "quick":
